@@ -615,6 +615,52 @@ func TestVerifC03Core(t *testing.T) {
 			}
 		}
 	}
+	// ---- path expiration (documented: "Path expiration"): a stanza with an expiration
+	// time stops granting at that time while the other stanzas of the policy stay in
+	// force - also when the parsed policy has been sitting in the policy cache since
+	// before that time. Real time has to pass; the oracle is monotone (only requests
+	// issued AFTER the expiration plus a margin are judged, and only for refusal), so a
+	// slow machine cannot produce an alarm. One shard does it.
+	if i, _ := vout.Shard(); i == 0 && (only == "" || only == "expiry") {
+		for _, tokNS := range []string{"", "ns1/"} {
+			exp := time.Now().Add(3 * time.Second)
+			hcl := fmt.Sprintf(`path "m/kv/z" {
+  capabilities = ["read", "update"]
+  expiration   = %q
+}
+path "m/kv/d/*" { capabilities = ["read"] }`, exp.UTC().Format(time.RFC3339Nano))
+			s.must(s.req(tokNS, s.root, logical.UpdateOperation, "sys/policies/acl/expiring", map[string]interface{}{"policy": hcl}))
+			tr := s.must(s.req(tokNS, s.root, logical.UpdateOperation, "auth/token/create", map[string]interface{}{"policies": []string{"expiring"}, "no_default_policy": true, "ttl": "1h"}))
+			tok := tr.Auth.ClientToken
+			// use it once so that the parsed policy is cached (not judged: it may already be late)
+			_, _ = s.req(tokNS, tok, logical.ReadOperation, "m/kv/z", nil)
+			_, _ = s.req(tokNS, tok, logical.ReadOperation, "m/kv/d/e", nil)
+			if d := time.Until(exp.Add(1200 * time.Millisecond)); d > 0 {
+				time.Sleep(d)
+			}
+			res.Add("evaluations", 3)
+			for _, op := range []logical.Operation{logical.ReadOperation, logical.UpdateOperation} {
+				r, e := s.req(tokNS, tok, op, "m/kv/z", map[string]interface{}{"value": "1"})
+				if !denied(r, e) {
+					res.Violate("c03:core:expired-path-stanza-still-grants", fmt.Sprintf("token of %q: %s on m/kv/z allowed %v after the stanza's expiration time (policy cached since before it)", tokNS, op, time.Since(exp).Round(time.Millisecond)), nil)
+				}
+			}
+			if r, e := s.req(tokNS, tok, logical.ReadOperation, "m/kv/d/e", nil); denied(r, e) {
+				res.Violate("c03:core:unexpired-stanza-stopped-granting", fmt.Sprintf("token of %q: read on m/kv/d/e refused although its stanza has no expiration: %s", tokNS, errText(r, e)), nil)
+			}
+			cr, ce := s.req(tokNS, tok, logical.UpdateOperation, "sys/capabilities-self", map[string]interface{}{"path": "m/kv/z"})
+			if ce == nil && cr != nil {
+				caps := toStrings(cr.Data["capabilities"])
+				for _, c := range caps {
+					if c == "read" || c == "update" {
+						res.Violate("c03:core:expired-path-stanza-still-reported", fmt.Sprintf("token of %q: capabilities-self reports %v for m/kv/z after the stanza expired", tokNS, caps), nil)
+					}
+				}
+			}
+			res.Distinct("nontrivial", "expiry|"+tokNS)
+			s.restore(tokNS)
+		}
+	}
 	res.Add("worlds", int64(worlds))
 	res.Bound("K_core", fmt.Sprintf("%d work items: tokens of {root, ns1/} x (single | pair (both orders, %d capability assignments) | same pattern twice) over %d / %d patterns; request views root, ns1/, ns1/sub/ by context and by path prefix; %d probe paths; 3 ways of asking for capabilities + 2..4 enforced operations each",
 		k, capVariants, len(rootPatterns), len(ns1Patterns), len(probePaths)))
